@@ -24,6 +24,99 @@ func (v *vLogImpl) execMore(f []string) string {
 			return "err " + vErrEnum(err) + " | " + v.state()
 		}
 		return "ok | " + v.state()
+	case "ropen":
+		o, _ := strconv.ParseInt(f[2], 10, 64)
+		r, err := v.l.NewReader(o, f[3] == "u")
+		if err != nil {
+			return "err"
+		}
+		v.readers[f[1]] = &vLiveReader{r: r, next: o, uncommitted: f[3] == "u"}
+		return "ok"
+	case "rnext":
+		lr := v.readers[f[1]]
+		if lr == nil {
+			return "bad-op"
+		}
+		n, _ := strconv.Atoi(f[2])
+		limit := v.l.NewestOffset()
+		if !lr.uncommitted {
+			limit = v.l.HighWatermark()
+		}
+		if lr.next > limit {
+			return "ok "
+		}
+		avail := n
+		if !lr.uncommitted {
+			if k := len(v.retainedIn(lr.next, limit)); k < avail {
+				avail = k
+			}
+		} else if k := len(v.retainedIn(lr.next, limit)); k < avail {
+			avail = k
+		}
+		var out []string
+		buf := make([]byte, 28)
+		for i := 0; i < avail; i++ {
+			ctx, cancel := context.WithTimeout(context.Background(), 400*time.Millisecond)
+			m, off, ts, ep, err := lr.r.ReadMessage(ctx, buf)
+			cancel()
+			if err != nil {
+				if strings.Contains(err.Error(), "EOF") {
+					out = append(out, "TIMEOUT")
+					break
+				}
+				return "err"
+			}
+			out = append(out, fmt.Sprintf("%d:%d:%d:%s:%s:%s", off, ts, ep, vShowBytes(m.Key()), vShowBytes(m.Value()), vShowHdrs(m.Headers())))
+			lr.next = off + 1
+		}
+		return "ok " + strings.Join(out, " ")
+	case "cleanmid":
+		ttl, _ := strconv.ParseInt(f[1], 10, 64)
+		ep, _ := strconv.ParseUint(f[2], 10, 64)
+		ts, _ := strconv.ParseInt(f[3], 10, 64)
+		var groups [][]string
+		cur := []string{}
+		for _, tok := range f[4:] {
+			if tok == "+" {
+				groups = append(groups, cur)
+				cur = []string{}
+			} else {
+				cur = append(cur, tok)
+			}
+		}
+		groups = append(groups, cur)
+		appendAll := func() {
+			for _, g := range groups {
+				if len(g) == 0 {
+					continue
+				}
+				var msgs []*Message
+				for i, tok := range g {
+					p := strings.Split(tok, "/")
+					ex, _ := strconv.ParseInt(p[3], 10, 64)
+					msgs = append(msgs, &Message{MagicByte: 1, Timestamp: ts + int64(i), LeaderEpoch: ep,
+						Key: vParseBytes(p[0]), Value: vParseBytes(p[1]), Headers: vParseHdrs(p[2]), Offset: ex})
+				}
+				if _, err := v.l.Append(msgs); err != nil {
+					panic(err)
+				}
+				ts += 10
+			}
+		}
+		fired := false
+		v.hook.fire = func() { fired = true; appendAll() }
+		old := computeTTL
+		computeTTL = func(time.Duration) int64 { return ttl }
+		err := v.l.Clean()
+		computeTTL = old
+		v.hook.fire = nil
+		if !fired {
+			appendAll() // nothing to clean (no limits, no compaction): the clean was a no-op
+		}
+		if err != nil {
+			return "err " + vErrEnum(err) + " | " + v.state()
+		}
+		return "ok | " + v.state()
 	case "roll":
 		// age-based roll of the active segment (only a segment that was written to is rolled)
 		act := v.l.activeSegment()
